@@ -543,6 +543,11 @@ func checkOperands(c *Ctx, rule, fname string, terms []*Terminal, fields []strin
 func noWallClock(c *Ctx, rule string) {
 	banned := map[string]bool{"time.Now": true, "time.Since": true, "time.Until": true}
 	n := scanCalls(c.P, c.P.LibFns, func(fnName string) bool { return banned[fnName] }, func(site callSite) {
+		if site.Callee == "time.Now" && underNilClock(site.Instr) {
+			// the nil clock's own definition written out: (*dsig.Clock)(nil).Now() is time.Now()
+			c.ok(rule, shortFn(site.Caller), "call "+site.Callee, c.P.InstrPos(site.Instr), "only on the branch where the injected clock is nil, for which the clock itself reads the wall clock")
+			return
+		}
 		c.bad(rule, shortFn(site.Caller), "call "+site.Callee, c.P.InstrPos(site.Instr), "library code reads the wall clock ("+site.Callee+") instead of the injected SP clock")
 	})
 	if n == 0 {
@@ -1089,4 +1094,49 @@ func warningInfoSource(c *Ctx, rule string) {
 		c.count(rule, n)
 		c.floor(rule, 1)
 	}
+}
+
+// underNilClock: the instruction is dominated by the true edge of `<x>.Clock == nil` (or the false edge of `!= nil`).
+func underNilClock(in ssa.Instruction) bool {
+	b := in.Block()
+	for d := b.Idom(); d != nil; d = d.Idom() {
+		if len(d.Instrs) == 0 || len(d.Succs) != 2 {
+			continue
+		}
+		ifi, ok := d.Instrs[len(d.Instrs)-1].(*ssa.If)
+		if !ok {
+			continue
+		}
+		cmp, ok := ifi.Cond.(*ssa.BinOp)
+		if !ok || (cmp.Op != token.EQL && cmp.Op != token.NEQ) {
+			continue
+		}
+		x, y := cmp.X, cmp.Y
+		if c, isC := x.(*ssa.Const); isC && c.IsNil() {
+			x, y = y, x
+		}
+		if c, isC := y.(*ssa.Const); !isC || !c.IsNil() {
+			continue
+		}
+		ld, ok := x.(*ssa.UnOp)
+		if !ok || ld.Op != token.MUL {
+			continue
+		}
+		fa, ok := ld.X.(*ssa.FieldAddr)
+		if !ok {
+			continue
+		}
+		st, ok := derefStruct(fa.X.Type())
+		if !ok || st.Underlying().(*types.Struct).Field(fa.Field).Name() != "Clock" {
+			continue
+		}
+		edge := d.Succs[0]
+		if cmp.Op == token.NEQ {
+			edge = d.Succs[1]
+		}
+		if len(edge.Preds) == 1 && (edge == b || edge.Dominates(b)) {
+			return true
+		}
+	}
+	return false
 }
